@@ -31,12 +31,33 @@ theorem clone_header_copy_refines_value_copy (grow : Nat → Nat) (hg : ∀ n, g
     (h : Heap α) (base : Slice) (hb : base.arr < h.length) (hl : base.len ≤ cap h base)
     (blocks : List (List α)) :
     blockLoopHeader grow pad h base blocks = blocks.map fun fs => read h base ++ fs := by
-  sorry
+  have hG : ∀ (fs : List α) (h : Heap α) (s : Slice),
+      appendAll grow pad h s fs = appendAllG grow pad h s fs := by
+    intro fs
+    induction fs with
+    | nil => intro h s; rfl
+    | cons x xs ih => intro h s; exact ih _ _
+  induction blocks generalizing h with
+  | nil => rfl
+  | cons fs rest ih =>
+    have sp := appendAllG_spec grow hg pad (h := h) (s := base) ⟨hb, hl⟩ fs
+    simp only [blockLoopHeader, cloneHeader, List.map_cons]
+    rw [hG, sp.read_self,
+      ih _ (Nat.lt_of_lt_of_le hb sp.len_le) (by rw [sp.cap_eq base hb]; exact hl),
+      sp.frame base hb (Or.inr (Nat.le_refl _))]
 
 /-- The authority-level world itself reads the same after the loop (later `Query` calls). -/
 theorem base_unchanged_by_block (grow : Nat → Nat) (hg : ∀ n, grow n > n) (pad : α)
     (h : Heap α) (base : Slice) (hb : base.arr < h.length) (hl : base.len ≤ cap h base) (fs : List α) :
     read (appendAll grow pad h base fs).1 base = read h base := by
-  sorry
+  have hG : ∀ (fs : List α) (h : Heap α) (s : Slice),
+      appendAll grow pad h s fs = appendAllG grow pad h s fs := by
+    intro fs
+    induction fs with
+    | nil => intro h s; rfl
+    | cons x xs ih => intro h s; exact ih _ _
+  rw [hG]
+  exact (appendAllG_spec grow hg pad (h := h) (s := base) ⟨hb, hl⟩ fs).frame base hb
+    (Or.inr (Nat.le_refl _))
 
 end Biscuit.C03Heap
